@@ -435,3 +435,71 @@ def register(reg):      # noqa: F811
     _reg_aux(reg)
     reg.add(ParseSiblings())
     reg.add(ParseTypeTop())
+
+
+# ------------------------------------------------------------------------------------------- the sibling parser: exception discipline
+from pyvc.contracts import LoopSpec      # noqa: E402
+
+_SAFETY_ACTIVE = [False]
+
+
+class ParseSafety(Contract):
+    """Serialization._parse_type/parse (the recursive sibling-list parser), exception discipline only: whatever the token
+    list, the parser returns a pair or raises TypeNameError - never IndexError (empty stack / empty token list), ValueError
+    (failed unpacking) or anything else.  (That it accepts exactly the grammar is covered by the bounded stand-in.)"""
+    target = "serialization.py::Serialization._parse_type/parse"
+    props = ("C15",)
+    variant = "exceptions"
+    params = {"tokens": "list", "tree": "list"}
+    closure = {"type_name": "val"}
+    modifies = lambda self, c0, a: {k: NEW for k in ("$alive", "$kind", "name", "subtypes")}
+
+    def selects(self, self_cls, args, kwargs=None):
+        return _SAFETY_ACTIVE[0]
+
+    def verify(self, eng):
+        _SAFETY_ACTIVE[0] = True
+        try:
+            return super().verify(eng)
+        finally:
+            _SAFETY_ACTIVE[0] = False
+
+    def pre(self, c, a):
+        i = fresh("i", Int)
+        return {"tokens_are_strings": z3.ForAll([i], z3.Implies(z3.And(0 <= i, i < a.tokens.x), is_VStr(z3.Select(a.tokens.t, i))))}
+
+    def may_raise(self, c0, a):
+        return {"TypeNameError": z3.BoolVal(True)}
+
+    def result_term(self, c0, a):
+        n = fresh("ntrees", Int)
+        return SV("tuple", x=[SV("list", fresh("trees", z3.ArraySort(Int, Val)), x=n, cls="tuple"),
+                              SV("list", fresh("rem", z3.ArraySort(Int, Val)), x=fresh("nrem", Int))])
+
+    def post(self, c0, c1, a, res):
+        if res.k != "tuple" or len(res.x) != 2 or res.x[0].k != "list" or res.x[1].k != "list":
+            return {"returns_a_pair_of_sequences": z3.BoolVal(False)}
+        return {"lengths_nonnegative": z3.And(res.x[0].x >= 0, res.x[1].x >= 0)}
+
+
+def _parse_loop_inv(L):
+    stack, sub = L.env["stack"], L.env["subtype_tokens"]
+    rem = L.env["remaining_tokens"]
+    i = fresh("i", Int)
+    return {"lengths": z3.And(stack.x >= 0, sub.x >= 0, rem.x >= 0),
+            "closed_bracket_seen": z3.Implies(stack.x == 0, sub.x >= 1),
+            "tokens_are_strings": z3.ForAll([i], z3.Implies(z3.And(0 <= i, i < sub.x), is_VStr(z3.Select(sub.t, i)))),
+            "remaining_are_strings": z3.ForAll([i], z3.Implies(z3.And(0 <= i, i < rem.x), is_VStr(z3.Select(rem.t, i))))}
+
+
+_ParseSiblings_selects = ParseSiblings.selects if hasattr(ParseSiblings, "selects") else None
+ParseSiblings.selects = lambda self, self_cls, args, kwargs=None: not _SAFETY_ACTIVE[0]
+
+_reg_parse = register
+
+
+def register(reg):      # noqa: F811
+    _reg_parse(reg)
+    reg.add(ParseSafety())
+    reg.add_loop("serialization.py::Serialization._parse_type/parse[exceptions]", 0,
+                 LoopSpec(_parse_loop_inv, carried={"stack": "list", "subtype_tokens": "list", "remaining_tokens": "list"}))
